@@ -104,6 +104,13 @@ func (r *Reader) ReadPacketUsing(buf []byte) (pkt Packet, err error) {
 				r.buf = append(r.buf[:0], r.curr...)
 			}
 
+			// r.buf now holds the prefix of a single incomplete frame. bound
+			// that, and not the amount of complete frames a read returned, so
+			// that the result does not depend on how the reads are split.
+			if len(r.buf)-maxFrameOverhead > r.opts.MaximumBufferSize {
+				return Packet{}, drpc.ProtocolError.New("data overflow")
+			}
+
 			if cap(r.buf)-len(r.buf) < 4096 {
 				nbuf := make([]byte, len(r.buf), 2*cap(r.buf)+4096)
 				copy(nbuf, r.buf)
@@ -120,10 +127,6 @@ func (r *Reader) ReadPacketUsing(buf []byte) (pkt Packet, err error) {
 				return Packet{}, drpc.ProtocolError.New("data overflow")
 			}
 			r.buf = r.buf[:ncap]
-
-			if len(r.buf)-maxFrameOverhead > r.opts.MaximumBufferSize {
-				return Packet{}, drpc.ProtocolError.New("data overflow")
-			}
 
 			r.curr = r.buf
 			continue
